@@ -484,7 +484,7 @@ class VQESolver:
                                                           n_spinorbitals=self.molecule.n_active_sos,
                                                           n_electrons=self.molecule.n_active_electrons,
                                                           up_then_down=self.up_then_down,
-                                                          spin=self.molecule.spin)
+                                                          spin=self.molecule.active_spin)
             qubit_hamiltonian2.compress()
 
             # Run through each qubit term separately, use previously calculated result for the qubit term or
@@ -624,7 +624,7 @@ class VQESolver:
                                                           n_spinorbitals=self.molecule.n_active_sos,
                                                           n_electrons=self.molecule.n_active_electrons,
                                                           up_then_down=self.up_then_down,
-                                                          spin=self.molecule.spin)
+                                                          spin=self.molecule.active_spin)
             qubit_hamiltonian2.compress()
 
             # Run through each qubit term separately, use previously calculated result for the qubit term or
